@@ -173,7 +173,7 @@ def cases(draw):
     case = {'tasks': tasks}
     if draw(st.integers(0, 3)) == 0:
         # pilot-level staging (Pilot.stage_in) of a few files before the tasks are submitted
-        case['pre'] = [[draw(st.sampled_from(['pilot', 'pilot', 'session', 'resource'])),
+        case['pre'] = [[draw(st.sampled_from(['pilot', 'pilot', 'session', 'resource', 'rel', 'rel'])),
                         draw(st.sampled_from(['shared.dat', 'cfg/params.dat', 'data/in/x.bin']))]
                        for _ in range(draw(st.integers(1, 3)))]
     return case
@@ -501,20 +501,22 @@ def _run(case, res, root, box):
     sid = 'rp.session.verif.0000'
     lay = Layout(root, sid)
     pre = [(str(x[0]), str(x[1])) for x in (case.get('pre') or [])
-           if isinstance(x, (list, tuple)) and len(x) == 2 and x[0] in ('pilot', 'session', 'resource')]
+           if isinstance(x, (list, tuple)) and len(x) == 2 and x[0] in ('pilot', 'session', 'resource', 'rel')]
     p   = pipe.Pipe(lay.client, lay.remote, pre_stage=pre)
     box.append(p)
     assert p.sess.uid == sid
     if pre:
         res.label('pilot_level_stage_in_before_tasks')
-        roots = {'pilot': lay.pilot, 'session': lay.session, 'resource': lay.resource}
+        # a relative (schema-less) target is relative to the pilot sandbox (Pilot.stage_in docs)
+        roots = {'pilot': lay.pilot, 'session': lay.session, 'resource': lay.resource, 'rel': lay.pilot}
         for (loc, name), got in zip(pre, p.pre_targets or []):
             want = os.path.join(roots[loc], name)
             have = ru.Url(got).path
             if os.path.normpath(have) != os.path.normpath(want):
                 res.fail('pilot_stage_in_target:%s' % loc,
-                         'directive %s:///%s resolved to %s, the %s sandbox is %s'
-                         % (loc, name, got, loc, roots[loc]))
+                         'directive %s resolved to %s, the %s sandbox is %s'
+                         % (name if loc == 'rel' else '%s:///%s' % (loc, name), got,
+                            'pilot' if loc == 'rel' else loc, roots[loc]))
 
     # ---- descriptions
     T = []
